@@ -1,6 +1,6 @@
 (* C06: the GPMF reader reproduces the encoded key-length-value tree. *)
-From Coq Require Import String List ZArith NArith Bool.
-From TT Require Import Base.Outcome Gpmf.Klv Gpmf.Walk Proofs.C06_proofs.
+From Coq Require Import String Ascii List ZArith NArith Bool Lia.
+From TT Require Import Base.Outcome Gpmf.Klv Gpmf.Walk Proofs.C06_proofs Proofs.C06_roundtrip.
 Import ListNotations.
 Local Open Scope Z_scope.
 
@@ -48,3 +48,38 @@ Theorem C06_walk_no_invention :
   forall skip e x, In x (walk skip e) -> In x (preorder e).
 Proof. exact walk_sub_preorder. Qed.
 Print Assumptions C06_walk_no_invention.
+
+(* ---- the reader as a whole, on every well-formed tree ---- *)
+(* `tree` is the encoder's input: leaves (key, type, size, repeat, payload of size x repeat bytes)
+   and containers (type 0) holding sub-trees, `encode` writes the 8-byte headers, the payload
+   and the zero padding to 32 bits, `abstract` is the tree the reader must return (same keys,
+   types, sizes, repeats, nesting and order; values = the per-type formatter on the payload).
+   `wf` limits the statement to keys without an attached sensor parser (`plain_key`), since those
+   re-shape the values (C07/C16 cover them), and to payloads their type's formatter accepts. *)
+Theorem C06_reader_inverts_encoder :
+  forall ts, wf_forest ts -> read (encode_forest ts) = Ok (map abstract ts).
+Proof. exact read_encode. Qed.
+Print Assumptions C06_reader_inverts_encoder.
+
+(* Bytes that follow a nested container's declared length are parsed as its siblings, never as
+   its children (t may be any container; `rest` is any byte string the reader accepts). *)
+Theorem C06_siblings_not_children :
+  forall t rest more, wf t -> read rest = Ok more -> read (encode t ++ rest) = Ok (abstract t :: more).
+Proof. exact siblings_not_children. Qed.
+Print Assumptions C06_siblings_not_children.
+
+(* A stream that ends before all bytes declared by an element or by an enclosing container have
+   been supplied is an error: cut the encoding of t anywhere strictly inside it. *)
+Theorem C06_truncated_is_error :
+  forall ts t k, wf_forest ts -> wf t -> (0 < k < length (encode t))%nat ->
+    is_err (read (encode_forest ts ++ firstn k (encode t))).
+Proof. exact truncated_is_error. Qed.
+Print Assumptions C06_truncated_is_error.
+
+(* the hypotheses are satisfiable by a nested, padded example *)
+Example C06_wf_example :
+  let leaf := Leaf [68;69;77;79]%N (ty "s"%char) 2 3 [0;1;0;2;255;255]%N in
+  let t := Node [68;69;86;67]%N 1 16 [leaf] in
+  wf t /\ read (encode t) = Ok [abstract t] /\ length (encode t) = 24%nat.
+Proof. cbv zeta. split; [|split]; [|vm_compute; reflexivity|vm_compute; reflexivity].
+  cbn. repeat split; try reflexivity; try lia; discriminate. Qed.
